@@ -107,6 +107,11 @@ def _one(args):
             continue
         if all(hermitian.epair(e) == (0, 0) for e in inst["E"]):
             continue     # H_0 = 0 is refused up front by the library (ValueError): not an accepted input
+        # every third sympy instance has SYMBOLIC unperturbed levels and a symbolic coupling constant
+        if vtype == "sympy" and idx % len(VTYPES) == 5 and inst["d"] <= 4 and not any(
+                epair_[1] != 0 for epair_ in map(hermitian.epair, inst["E"])):
+            inst["symbolic_consts"] = True
+            inst["N"] = min(inst["N"], 3)
         # every other numpy / sparse instance presents integer-valued terms (H_0 = np.diag of ints) in int64
         inst["int_dtype"] = vtype in ("numpy", "sparse") and (idx // len(VTYPES)) % 2 == 0
         desc = hermitian.describe(inst)
